@@ -54,6 +54,9 @@ class Under(io.RawIOBase):
         return True
 
     def _take(self, n):
+        if self.closed:
+            # like a real file or socket file: nothing can be read once somebody closed it
+            raise ValueError("I/O operation on closed file.")
         self.ncalls += 1
         if self.err_at is not None and self.ncalls == self.err_at:
             self.raised = True
@@ -640,7 +643,7 @@ def streams_made_and_dropped_first(W, rec):
             env["HTTP_TRANSFER_ENCODING"] = "chunked"
         try:
             st0 = get_input_stream(env, safe_fallback=first != "no-safe-fallback", max_content_length=1000 if first == "with-maximum-1000" else None)
-            if first == "buffered-reader-dropped" and isinstance(st0, io.RawIOBase):
+            if first == "buffered-reader-dropped" and isinstance(st0, io.RawIOBase) and st0 is not u:  # (wrapping the server's own input and dropping the wrapper would close that input: the middleware's doing)
                 io.BufferedReader(st0)  # dropped at once, without a read
             del st0
         except Exception:  # noqa: BLE001
